@@ -1,4 +1,5 @@
 import PcbV.Lemmas.TokStep
+import PcbV.Lemmas.TokData
 /-
   Lemmas for C17: the grammar fragment (items), well-formedness for the tokeniser and for the lister,
   and the two simulation theorems  tokenise (text is) = tokens is,  list (tokens is) = text is.
@@ -20,6 +21,14 @@ inductive Item where
   | jump (n : Nat)                            -- line-number reference
   | rem (b : Bytes)                           -- REM b   (to the end of the line)
   | quote (b : Bytes)                         -- 'b      (to the end of the line)
+  | tab                                       -- one TAB
+  | raw (c : Nat)                             -- digit or point where no number is allowed (OPTION BASE 1)
+  | strOpen (b : Bytes)                       -- "b  left open by the end of the line
+  | data (b : Bytes)                          -- DATA b  (raw up to a `:` outside quotes or the end of the line)
+  -- spellings that only the tokeniser sees (the lister never prints them; see `canon`)
+  | kwAs (w k tok : Bytes)                    -- keyword k typed as w (any letter case)
+  | qmark                                     -- ? for PRINT
+  | goTo (w k tok : Bytes)                    -- GO TO / GO SUB forms: w = G O <blanks> T O / G O <blank> S U B
 
 def Item.text : Item → Bytes
   | .sp => [32]
@@ -32,6 +41,13 @@ def Item.text : Item → Bytes
   | .jump n => showBase 10 n
   | .rem b => kwRem ++ b
   | .quote b => 39 :: b
+  | .tab => [9]
+  | .raw c => [c]
+  | .strOpen b => 34 :: b
+  | .data b => kwData ++ b
+  | .kwAs w _ _ => w
+  | .qmark => [63]
+  | .goTo w _ _ => w
 
 def Item.enc : Item → Bytes
   | .sp => [32]
@@ -44,6 +60,13 @@ def Item.enc : Item → Bytes
   | .jump n => [tTUINT, lo n, hi n]
   | .rem b => tREM :: b
   | .quote b => [58, tREM, tOREM] ++ b
+  | .tab => [9]
+  | .raw c => [c]
+  | .strOpen b => 34 :: b
+  | .data b => tDATA :: b
+  | .kwAs _ k tok => emitKw k tok
+  | .qmark => [tPRINT]
+  | .goTo _ k tok => emitKw k tok
 
 def textAll : List Item → Bytes
   | [] => []
@@ -60,6 +83,10 @@ def nextSt (t : Table) (s : St) : Item → St
   | .op _ _ => { s with an := true }
   | .kw k _ => wordSt t s k
   | .ident w => wordSt t s w
+  | .raw _ => { s with aj := false, an := false }
+  | .kwAs _ k _ => wordSt t s k
+  | .qmark => { s with aj := false, an := true }
+  | .goTo _ k _ => wordSt t s k
   | _ => s
 
 def startsLetter (w : Bytes) : Prop := ∃ c w', w = c :: w' ∧ isLetter c = true
@@ -80,6 +107,17 @@ def okT (old : Bool) (t : Table) (cd : Codec) (s : St) (i : Item) (R : Bytes) (l
   | .rem b => last ∧ toToken t kwRem = some [tREM] ∧ kwScanOK t kwRem = true ∧ nextNotName b = true
       ∧ ∀ x ∈ b, remEnd x = false
   | .quote b => last ∧ ∀ x ∈ b, remEnd x = false
+  | .tab => True
+  | .raw c => s.an = false ∧ (isDigit c = true ∨ c = 46)
+  | .strOpen b => last ∧ ∀ c ∈ b, strChar c = true
+  | .data b => toToken t kwData = some [tDATA] ∧ kwScanOK t kwData = true ∧ nextNotName (b ++ R) = true
+      ∧ dataOK R false b = true
+  | .kwAs w k tok => toToken t k = some tok ∧ kwScanOK t k = true ∧ startsLetter w ∧ w.map upper = k ∧ k ≠ []
+      ∧ k ≠ kwRem ∧ k ≠ kwOrem ∧ k ≠ kwData ∧ (isNoLookahead k = true ∨ nextNotName R = true)
+  | .qmark => old = false
+  | .goTo w k tok => (∃ g o mid allow, w = g :: o :: mid ∧ upper g = 71 ∧ upper o = 79
+        ∧ wideGo (mid ++ R) = some (k, R, allow))
+      ∧ toToken t [71] = none ∧ toToken t k = some tok ∧ (k = kwGoto ∨ k = kwGosub)
 
 def wfT (old : Bool) (t : Table) (cd : Codec) : St → List Item → Prop
   | _, [] => True
@@ -162,6 +200,61 @@ theorem tok_items (old : Bool) (t : Table) (cd : Codec) : ∀ (is : List Item) (
       subst hl
       simp only [textAll, encAll, Item.text, Item.enc, List.append_nil, List.cons_append]
       exact tok_quote old t cd f' s b h4
+    | tab =>
+      simp only [textAll, encAll, Item.text, Item.enc, List.cons_append, List.nil_append]
+      rw [tok_tab]; simp only [nextSt] at IH; rw [IH]; rfl
+    | raw c =>
+      simp only [okT] at hi
+      simp only [textAll, encAll, Item.text, Item.enc, List.cons_append, List.nil_append]
+      rw [tok_raw old t cd f' s c _ hi.2 hi.1]; simp only [nextSt] at IH; rw [IH]; rfl
+    | strOpen b =>
+      simp only [okT] at hi
+      obtain ⟨hl, h4⟩ := hi
+      subst hl
+      simp only [textAll, encAll, Item.text, Item.enc, List.append_nil]
+      exact tok_str_open old t cd f' s b h4
+    | data b =>
+      simp only [okT] at hi
+      obtain ⟨h1, h2, h3, h4⟩ := hi
+      have hscan := scanWord_kw t kwData [tDATA] kwData (b ++ textAll is) h1 h2 (by simp [kwData]) (by decide) (Or.inr h3)
+      have he : emitKw kwData [tDATA] = [tDATA] := by decide
+      rw [he] at hscan
+      simp only [textAll, encAll, Item.text, Item.enc, List.append_assoc]
+      have := tok_data old t cd f' s 68 [65, 84, 65] [tDATA] b (textAll is) (by decide) (by simpa [kwData] using hscan) h4
+      simp only [nextSt] at IH
+      rw [IH] at this
+      simpa [kwData, prepend_ok] using this
+    | kwAs w k tok =>
+      simp only [okT] at hi
+      obtain ⟨h1, h2, ⟨c, w', rfl, hc⟩, hup, hk, h4, h5, h6, h7⟩ := hi
+      have hscan := scanWord_kw t k tok (c :: w') (textAll is) h1 h2 hk hup h7
+      simp only [textAll, encAll, Item.text, Item.enc]
+      rw [List.cons_append] at hscan ⊢
+      rw [tok_word old t cd f' s c w' k (emitKw k tok) _ hc hscan h4 h5 h6]
+      simp only [nextSt] at IH; rw [IH]; rfl
+    | qmark =>
+      simp only [okT] at hi
+      subst hi
+      simp only [textAll, encAll, Item.text, Item.enc, List.cons_append, List.nil_append]
+      rw [tok_qmark]; simp only [nextSt] at IH; rw [IH]; rfl
+    | goTo w k tok =>
+      simp only [okT] at hi
+      obtain ⟨⟨g, o, mid, allow, rfl, hg, ho, hw⟩, hG, ht, hk⟩ := hi
+      have hscan := scanWord_go t g o (mid ++ textAll is) k tok (textAll is) allow hg ho hG hw ht
+      have hgl : isLetter g = true := by
+        simp only [isLetter, isUpper, Bool.or_eq_true, decide_eq_true_eq]
+        by_cases hl : isLower g = true
+        · exact Or.inr hl
+        · have : g = 71 := by simpa [upper, hl] using hg
+          left; omega
+      have hne : k ≠ kwRem ∧ k ≠ kwOrem ∧ k ≠ kwData := by
+        rcases hk with rfl | rfl <;> decide
+      simp only [textAll, encAll, Item.text, Item.enc]
+      rw [List.cons_append, List.cons_append] at ⊢
+      have e : g :: o :: (mid ++ textAll is) = g :: ((o :: mid) ++ textAll is) := by simp
+      rw [e] at hscan ⊢
+      rw [tok_word old t cd f' s g (o :: mid) k (emitKw k tok) _ hgl hscan hne.1 hne.2.1 hne.2.2]
+      simp only [nextSt] at IH; rw [IH]; rfl
 
 
 
@@ -180,6 +273,13 @@ def cost : Item → Nat
   | .jump _ => 1
   | .rem b => b.length + 1
   | .quote b => b.length + 3
+  | .tab => 1
+  | .raw _ => 1
+  | .strOpen b => b.length + 1
+  | .data b => b.length + 1
+  | .kwAs _ _ _ => 1
+  | .qmark => 1
+  | .goTo _ _ _ => 1
 
 def costAll : List Item → Nat
   | [] => 0
@@ -207,6 +307,14 @@ def okL (old : Bool) (t : Table) (cd : Codec) (out : Bytes) (i : Item) (E : Byte
   | .rem b => last ∧ toKeyword t [tREM] = some kwRem ∧ prevOK out = true ∧ b.head? ≠ some tOREM
       ∧ ∀ c ∈ b, remChar c = true
   | .quote b => last ∧ (∃ kw, toKeyword t [tREM] = some kw) ∧ ∀ c ∈ b, remChar c = true
+  | .tab => True
+  | .raw c => isDigit c = true ∨ c = 46
+  | .strOpen b => last ∧ ∀ c ∈ b, strChar c = true
+  | .data b => toKeyword t [tDATA] = some kwData ∧ prevOK out = true ∧ followsNoSpace (b ++ E).head? = true
+      ∧ dataOK E false b = true
+  | .kwAs _ _ _ => False
+  | .qmark => False
+  | .goTo _ _ _ => False
 
 def wfL (old : Bool) (t : Table) (cd : Codec) : Bytes → List Item → Prop
   | _, [] => True
@@ -340,6 +448,41 @@ theorem lst_items (old : Bool) (t : Table) (cd : Codec) : ∀ (is : List Item) (
         lst_token old t cd _ _ tREM _ (by decide), listKeyword_quote t kw out b h1,
         lst_comment old t cd b _ false _ (by omega) h4]
       simp [kwOrem]
+    | tab =>
+      simp only [textAll, encAll, Item.text, Item.enc, cost, List.cons_append, List.nil_append] at IH ⊢
+      rw [lst_tab, IH]; simp
+    | raw c =>
+      simp only [okL] at hok
+      have hc : 32 ≤ c ∧ c ≤ 126 ∧ c ≠ 34 := by
+        rcases hok with h | rfl
+        · have : 48 ≤ c ∧ c ≤ 57 := by simpa [isDigit] using h
+          omega
+        · omega
+      simp only [textAll, encAll, Item.text, Item.enc, cost, List.cons_append, List.nil_append] at IH ⊢
+      rw [lst_char old t cd g false false out c _ (by omega) hc.2.2 (not_lead_of_ge hc.1) (Or.inr (Or.inr ⟨hc.1, hc.2.1⟩)), IH]
+      simp
+    | strOpen b =>
+      simp only [okL] at hok
+      obtain ⟨hl, h4⟩ := hok
+      subst hl
+      simp only [textAll, encAll, Item.text, Item.enc, cost, List.append_nil]
+      exact lst_str_open old t cd g out b h4
+    | data b =>
+      simp only [okL] at hok
+      obtain ⟨h1, h2, h3, h4⟩ := hok
+      simp only [textAll, encAll, Item.text, Item.enc, cost, List.cons_append] at IH ⊢
+      have e : g + (b.length + 1) = (g + b.length) + 1 := by omega
+      rw [e, lst_token old t cd _ out tDATA _ (by decide),
+        listKeyword_plain1 t tDATA kwData out _ h1 (by decide) h2 (by decide) (by decide) (by decide) (Or.inr h3),
+        lst_data old t cd (encAll is) (encAll is) b g false _ h4]
+      by_cases hE : encAll is = []
+      · rw [hE] at IH ⊢
+        rw [listLoop_nil'] at IH ⊢
+        simpa using IH
+      · rw [dataOK_flip (encAll is) hE b false h4]; simpa using IH
+    | kwAs w k tok => exact absurd hok (by simp [okL])
+    | qmark => exact absurd hok (by simp [okL])
+    | goTo w k tok => exact absurd hok (by simp [okL])
 
 
 
@@ -381,6 +524,19 @@ theorem wfT_length (old : Bool) (t : Table) (cd : Codec) : ∀ (is : List Item) 
         | cons _ _ => simp
       | rem b => simp [Item.text, kwRem]
       | quote b => simp [Item.text]
+      | tab => simp [Item.text]
+      | raw c => simp [Item.text]
+      | strOpen b => simp [Item.text]
+      | data b => simp [Item.text, kwData]
+      | kwAs w k tok =>
+        simp only [okT] at hok
+        obtain ⟨_, _, ⟨c, k', rfl, _⟩, _⟩ := hok
+        simp [Item.text]
+      | qmark => simp [Item.text]
+      | goTo w k tok =>
+        simp only [okT] at hok
+        obtain ⟨⟨g, o, mid, allow, rfl, _⟩, _⟩ := hok
+        simp [Item.text]
     simp only [textAll, List.length_cons, List.length_append]
     omega
 
@@ -421,6 +577,13 @@ theorem wfL_cost (old : Bool) (t : Table) (cd : Codec) : ∀ (is : List Item) (o
       | jump n => simp [Item.enc, cost]
       | rem b => simp [Item.enc, cost]
       | quote b => simp [Item.enc, cost]
+      | tab => simp [Item.enc, cost]
+      | raw c => simp [Item.enc, cost]
+      | strOpen b => simp [Item.enc, cost]
+      | data b => simp [Item.enc, cost]
+      | kwAs w k tok => exact absurd hok (by simp [okL])
+      | qmark => exact absurd hok (by simp [okL])
+      | goTo w k tok => exact absurd hok (by simp [okL])
     simp only [costAll, encAll, List.length_append]
     omega
 
@@ -492,6 +655,20 @@ def okTb (old : Bool) (t : Table) (cd : Codec) (s : St) (i : Item) (R : Bytes) (
   | .rem b => last && toToken t kwRem == some [tREM] && kwScanOK t kwRem && nextNotName b
       && b.all (fun x => !remEnd x)
   | .quote b => last && b.all (fun x => !remEnd x)
+  | .tab => true
+  | .raw c => !s.an && (isDigit c || c == 46)
+  | .strOpen b => last && b.all strChar
+  | .data b => toToken t kwData == some [tDATA] && kwScanOK t kwData && nextNotName (b ++ R) && dataOK R false b
+  | .kwAs w k tok => toToken t k == some tok && kwScanOK t k && headIs isLetter w && w.map upper == k && !k.isEmpty
+      && k != kwRem && k != kwOrem && k != kwData && (isNoLookahead k || nextNotName R)
+  | .qmark => !old
+  | .goTo w k tok =>
+      (match w with
+       | g :: o :: mid => upper g == 71 && upper o == 79 && (match wideGo (mid ++ R) with
+                                                            | some (k', r, _) => k' == k && r == R
+                                                            | none => false)
+       | _ => false)
+      && toToken t [71] == none && toToken t k == some tok && (k == kwGoto || k == kwGosub)
 
 def wfTb (old : Bool) (t : Table) (cd : Codec) : St → List Item → Bool
   | _, [] => true
@@ -539,6 +716,40 @@ theorem wfTb_sound (old : Bool) (t : Table) (cd : Codec) : ∀ (is : List Item) 
     | quote b =>
       simp only [okTb, Bool.and_eq_true, List.isEmpty_iff, List.all_eq_true, Bool.not_eq_true'] at h1
       exact ⟨h1.1, h1.2⟩
+    | tab => trivial
+    | raw c =>
+      simp only [okTb, Bool.and_eq_true, Bool.not_eq_true', Bool.or_eq_true, beq_iff_eq] at h1
+      exact ⟨h1.1, h1.2⟩
+    | strOpen b =>
+      simp only [okTb, Bool.and_eq_true, List.isEmpty_iff, List.all_eq_true] at h1
+      exact ⟨h1.1, h1.2⟩
+    | data b =>
+      simp only [okTb, Bool.and_eq_true, beq_iff_eq] at h1
+      obtain ⟨⟨⟨a1, a2⟩, a3⟩, a4⟩ := h1
+      exact ⟨a1, a2, a3, a4⟩
+    | kwAs w k tok =>
+      simp only [okTb, Bool.and_eq_true, beq_iff_eq, bne_iff_ne, ne_eq, Bool.or_eq_true, Bool.not_eq_true',
+        List.isEmpty_eq_false_iff] at h1
+      obtain ⟨⟨⟨⟨⟨⟨⟨⟨a1, a2⟩, a3⟩, a4⟩, a5⟩, a6⟩, a7⟩, a8⟩, a9⟩ := h1
+      exact ⟨a1, a2, headIs_ex a3, a4, a5, a6, a7, a8, a9⟩
+    | qmark =>
+      simp only [okTb, Bool.not_eq_true'] at h1
+      exact h1
+    | goTo w k tok =>
+      simp only [okTb, Bool.and_eq_true, beq_iff_eq, Bool.or_eq_true] at h1
+      obtain ⟨⟨⟨a1, a2⟩, a3⟩, a4⟩ := h1
+      refine ⟨?_, a2, a3, a4⟩
+      split at a1
+      · rename_i g o mid
+        simp only [Bool.and_eq_true, beq_iff_eq] at a1
+        obtain ⟨⟨b1, b2⟩, b3⟩ := a1
+        split at b3
+        · rename_i k' r allow hw
+          simp only [Bool.and_eq_true, beq_iff_eq] at b3
+          obtain ⟨rfl, rfl⟩ := b3
+          exact ⟨g, o, mid, allow, rfl, b1, b2, hw⟩
+        · exact absurd b3 (by simp)
+      · exact absurd a1 (by simp)
 
 def okLb (old : Bool) (t : Table) (cd : Codec) (out : Bytes) (i : Item) (E : Bytes) (last : Bool) : Bool :=
   match i with
@@ -563,6 +774,14 @@ def okLb (old : Bool) (t : Table) (cd : Codec) (out : Bytes) (i : Item) (E : Byt
   | .jump n => decide (n < 65536)
   | .rem b => last && toKeyword t [tREM] == some kwRem && prevOK out && b.head? != some tOREM && b.all remChar
   | .quote b => last && (toKeyword t [tREM]).isSome && b.all remChar
+  | .tab => true
+  | .raw c => isDigit c || c == 46
+  | .strOpen b => last && b.all strChar
+  | .data b => toKeyword t [tDATA] == some kwData && prevOK out && followsNoSpace (b ++ E).head?
+      && dataOK E false b
+  | .kwAs _ _ _ => false
+  | .qmark => false
+  | .goTo _ _ _ => false
 
 def wfLb (old : Bool) (t : Table) (cd : Codec) : Bytes → List Item → Bool
   | _, [] => true
@@ -626,6 +845,18 @@ theorem wfLb_sound (old : Bool) (t : Table) (cd : Codec) : ∀ (is : List Item) 
     | quote b =>
       simp only [okLb, Bool.and_eq_true, List.isEmpty_iff, List.all_eq_true, Option.isSome_iff_exists] at h1
       exact ⟨h1.1.1, h1.1.2, h1.2⟩
+    | tab => trivial
+    | raw c => simpa [okLb, okL] using h1
+    | strOpen b =>
+      simp only [okLb, Bool.and_eq_true, List.isEmpty_iff, List.all_eq_true] at h1
+      exact ⟨h1.1, h1.2⟩
+    | data b =>
+      simp only [okLb, Bool.and_eq_true, beq_iff_eq] at h1
+      obtain ⟨⟨⟨a1, a2⟩, a3⟩, a4⟩ := h1
+      exact ⟨a1, a2, a3, a4⟩
+    | kwAs w k tok => simp [okLb] at h1
+    | qmark => simp [okLb] at h1
+    | goTo w k tok => simp [okLb] at h1
 
 
 end PcbV.TokL
